@@ -471,10 +471,13 @@ def mon_expect(run, script, il, iab, ml):
                 v = div * 16 + (d['s'][0x5d] & 15)
                 exact = Fraction(32000000 * 16) / Fraction(x)
                 if mod == OOK:
-                    # no fractional part in OOK: one step is a whole divider unit
-                    if not (0 <= exact / 16 - div < 1):
+                    # no fractional part in OOK: one step is a whole divider unit.  The quotient is
+                    # computed in binary32 and truncated: C12_ook_bitrate states exactly this window
+                    # (32 MHz/(v+1) < rate <= 32 MHz/v * (1 + 2^-24))
+                    if not (div > 0 and Fraction(32000000, div + 1) < Fraction(x) <= Fraction(32000000, div) * (1 + Fraction(1, 2 ** 24))):
                         run.violation('OOK bit rate %r programmed divider %d, exact %s' % (x, div, float(exact / 16)), script)
-                elif not (0 <= exact - v < 1):
+                elif not (v > 0 and Fraction(32000000 * 16, v + 1) < Fraction(x) <= Fraction(32000000 * 16, v) * (1 + Fraction(1, 2 ** 52))):
+                    # FSK: computed in binary64 (C12_fsk_bitrate)
                     run.violation('FSK bit rate %r: the chip holds divider %d/16, exact %s/16' % (x, v, float(exact)), script)
         elif kind == 'fdev' and P == 'C12':
             run.cov['monitor_checks'] += 1
